@@ -276,6 +276,28 @@ func init() {
 	}
 	externWrites["(*sync.Mutex).Lock"] = noWrites
 	externWrites["(*sync.Mutex).Unlock"] = noWrites
+
+	// sync.RWMutex: the ghost state is 0 (free), 1 (held for writing by this call chain), 2 (held for reading by this call chain)
+	rw := func(name, what string, want, next string, msg string) {
+		externs[name] = func(f *Frame, b *ssa.BasicBlock, in *ssa.Call, args []Val, st *State, g string) Val {
+			f.e.note("assumed contract: sync.RWMutex - Lock/RLock require the mutex not to be held by this call chain and leave it write-/read-held; Unlock/RUnlock require it to be write-/read-held and leave it free")
+			held := f.mutexHeld(f.mutexLV(args[0]))
+			cur := f.loadLV(st, held)
+			if f.e.lockDiscipline {
+				f.oblige("lock", f.oblName(fmt.Sprintf("%s:%s#%d", funcDisplay(f.fn), what, f.callSiteN(what))), g, eq(cur, want), msg, []string{"C11"}, posOf(in))
+			}
+			if want == "0" {
+				f.e.assume(implies(g, eq(cur, "0")))
+			}
+			f.storeLV(st, held, next)
+			return Val{}
+		}
+		externWrites[name] = noWrites
+	}
+	rw("(*sync.RWMutex).Lock", "lock-not-held", "0", "1", "mu.Lock() while already held (self-deadlock)")
+	rw("(*sync.RWMutex).RLock", "rlock-not-held", "0", "2", "mu.RLock() while already held by this call chain")
+	rw("(*sync.RWMutex).Unlock", "unlock-held", "1", "0", "mu.Unlock() of a mutex that is not write-held")
+	rw("(*sync.RWMutex).RUnlock", "runlock-held", "2", "0", "mu.RUnlock() of a mutex that is not read-held")
 }
 
 // declFields declares the functions that model strings.Fields and the general strings.Join.
